@@ -70,7 +70,8 @@ def Bytes_as_chars(cs):
 
 
 class Translator:
-    def __init__(self, fn, tag):
+    def __init__(self, fn, tag, owner=None):
+        self.owner = owner
         src = textwrap.dedent(inspect.getsource(fn))
         self.tree = ast.parse(src).body[0]
         if not isinstance(self.tree, ast.FunctionDef):
@@ -126,6 +127,9 @@ class Translator:
             if isinstance(n.value, ast.Name) and n.value.id == 'self':
                 if n.attr in self.attrs:
                     return self.attrs[n.attr]
+                v = getattr(self.owner, n.attr, None) if self.owner is not None else None
+                if isinstance(v, int) and not isinstance(v, bool):
+                    return v            # class-level integer constant, read from the class the method belongs to
                 raise Unsupported('self.' + n.attr)
             raise Unsupported('attribute ' + ast.dump(n))
         if isinstance(n, ast.BinOp):
@@ -220,8 +224,8 @@ class Translator:
         return out
 
 
-def translate(fn, tag):
-    return Translator(fn, tag).run()
+def translate(fn, tag, owner=None):
+    return Translator(fn, tag, owner).run()
 
 
 def evaluate(enc, rnd_values, seq):
